@@ -5,8 +5,9 @@
    (MemoryDB._load_files / write) and rope/base/change.py (ChangeToData / DataToChange).
    Definitions only; proofs are in PersistProofs.v.
 
-   Disk: the four files rope writes under .ropeproject at close ("history", "history.json",
-   "objectdb", "objectdb.json"), each absent or holding a byte string.  A save is a list of steps in
+   Disk: the files rope writes under .ropeproject at close ("objectdb", "history" and, when the pickle
+   based contrib.autoimport is in use, "globalnames", each with its ".json" side file), each absent or
+   holding a byte string.  A save is a list of steps in
    the order the code performs them; buffering delays appends, so the states a crash can leave are
    the disks after every prefix of every schedule that keeps each file's own steps in program order.
    Unpickling is a Section variable constrained only by the laws [good_pickle]/[unpickle [] = Eof],
@@ -27,12 +28,13 @@ Inductive pval :=
 
 (* ------------------------------------------------------------------------------------------------ *)
 (* Files and disk                                                                                    *)
-Inductive dfile := History | Objectdb.
+Inductive dfile := History | Objectdb
+                 | Globalnames.   (* rope.contrib.autoimport.pickle.AutoImport: the third user of _DataFiles *)
 Inductive file := P (f : dfile)              (* the pickle: .ropeproject/<name> *)
                 | J (f : dfile).             (* the side file: .ropeproject/<name>.json *)
 
 Definition dfile_eqb (a b : dfile) : bool :=
-  match a, b with History, History | Objectdb, Objectdb => true | _, _ => false end.
+  match a, b with History, History | Objectdb, Objectdb | Globalnames, Globalnames => true | _, _ => false end.
 Definition file_eqb (a b : file) : bool :=
   match a, b with P f, P g | J f, J g => dfile_eqb f g | _, _ => false end.
 
@@ -83,12 +85,13 @@ Definition write_steps (w : write) : list step :=
 (* _DataFiles.write(): the hooks in registration order, each performing one write_data *)
 Definition save_steps (ws : list write) : list step := flat_map write_steps ws.
 
-(* Project.close(): MemoryDB.write was registered when the project was constructed (PyCore is forced
-   by Project._init_other_parts), History.write when project.history was first used; each hook writes
-   only when its preference (save_objectdb / save_history) is on. *)
-Definition close_writes (odb hist : option (pval * bytes * bytes)) : list write :=
-  match odb with Some (v, p, j) => [ {| w_file := Objectdb; w_val := v; w_pickle := p; w_json := j |} ] | None => [] end
-  ++ match hist with Some (v, p, j) => [ {| w_file := History; w_val := v; w_pickle := p; w_json := j |} ] | None => [] end.
+(* Project.close(): the hooks run in registration order. MemoryDB.write was registered when the project
+   was constructed (PyCore is forced by Project._init_other_parts), History.write when project.history was
+   first used, AutoImport._write when an AutoImport object was made; MemoryDB and History write only when
+   their preference (save_objectdb / save_history) is on. [hooks]: what each registered hook writes. *)
+Definition close_writes (odb : option write) (later_hooks : list (option write)) : list write :=
+  match odb with Some w => [w] | None => [] end
+  ++ flat_map (fun h => match h with Some w => [w] | None => [] end) later_hooks.
 
 (* ------------------------------------------------------------------------------------------------ *)
 (* Schedules and crash states                                                                        *)
@@ -118,6 +121,42 @@ Inductive delays : list step -> list step -> Prop :=
 Definition crash_state (prog : list step) (d0 d : disk) : Prop :=
   exists l k, schedule_of prog l /\ forall x, d x = run (firstn k l) d0 x.
 
+(* exactly the states buffering can leave: prefixes of delayed orders of the program *)
+Definition buffered_crash_state (prog : list step) (d0 d : disk) : Prop :=
+  exists l k, delays prog l /\ forall x, d x = run (firstn k l) d0 x.
+
+(* The abstract writer the tracer observes: per file, open (truncating or not), writes of byte chunks, close,
+   in program order.  [trace_steps] is its translation into steps (None when an open does not truncate: such a
+   writer is outside the model) and [exec_trace] its direct meaning on a disk where every write reaches the
+   file at once (no buffering); PersistProofs.trace_simulation: the two agree. *)
+Inductive tev := TOpen (x : file) (trunc : bool) | TWrite (x : file) (bs : bytes) | TClose (x : file).
+
+Fixpoint trace_steps (t : list tev) : option (list step) :=
+  match t with
+  | [] => Some []
+  | e :: r =>
+      match trace_steps r with
+      | None => None
+      | Some s =>
+          match e with
+          | TOpen x true => Some (OpenTrunc x :: s)
+          | TOpen x false => None
+          | TWrite x bs => Some (map (Append x) bs ++ s)
+          | TClose x => Some (Close x :: s)
+          end
+      end
+  end.
+
+Definition exec_tev (e : tev) (d : disk) : disk :=
+  match e with
+  | TOpen x true => upd d x (Some [])
+  | TOpen x false => upd d x (Some (match d x with Some c => c | None => [] end))
+  | TWrite x bs => match d x with Some c => upd d x (Some (c ++ bs)) | None => d end
+  | TClose _ => d
+  end.
+Fixpoint exec_trace (t : list tev) (d : disk) : disk :=
+  match t with [] => d | e :: r => exec_trace r (exec_tev e d) end.
+
 (* boolean versions, evaluated by the runner *)
 Definition step_eqb (a b : step) : bool :=
   match a, b with
@@ -131,7 +170,8 @@ Fixpoint steps_eqb (a b : list step) : bool :=
   | x :: a', y :: b' => step_eqb x y && steps_eqb a' b'
   | _, _ => false
   end.
-Definition all_files : list file := [P Objectdb; J Objectdb; P History; J History].
+Definition all_files : list file :=
+  [P Objectdb; J Objectdb; P History; J History; P Globalnames; J Globalnames].
 Definition schedule_ofb (prog l : list step) : bool :=
   forallb (fun x => steps_eqb (proj x l) (proj x prog)) all_files
   && steps_eqb (syscalls l) (syscalls prog).
@@ -142,9 +182,15 @@ Inductive load := Value (v : pval) (rest : bytes)   (* one object decoded, strea
                 | Eof                               (* EOFError: stream ends at an opcode boundary *)
                 | Corrupt.                          (* pickle.UnpicklingError *)
 
-Inductive exn := ExEOF | ExUnpickling | ExConsumer.  (* ExConsumer: TypeError/IndexError/... raised by a consumer *)
+Inductive exn := ExEOF | ExUnpickling                       (* raised by pickle.load *)
+               | ExType | ExIndex | ExKey | ExAttribute      (* raised by a consumer of the loaded value *)
+               | ExFuel.                                     (* model artefact, excluded by the theorems *)
 Definition exn_eqb (a b : exn) : bool :=
-  match a, b with ExEOF, ExEOF | ExUnpickling, ExUnpickling | ExConsumer, ExConsumer => true | _, _ => false end.
+  match a, b with
+  | ExEOF, ExEOF | ExUnpickling, ExUnpickling | ExType, ExType | ExIndex, ExIndex | ExKey, ExKey
+  | ExAttribute, ExAttribute | ExFuel, ExFuel => true
+  | _, _ => false
+  end.
 
 Inductive rd := Loaded (v : pval)            (* PNone is Python's None: "no data" *)
               | Raised (e : exn)
@@ -206,9 +252,9 @@ End Reader.
 Inductive chg :=
 | CSet (desc : pval) (cs : list chg) (time : pval)
 | CContents (path new_contents old_contents : pval)
-| CMove (old_path new_path is_folder : pval)   (* is_folder: absent in files written before the field existed *)
-| CCreate (path is_folder : pval)
-| CRemove (path is_folder : pval).
+| CMove (old_path new_path : pval) (is_folder : bool)   (* the makers keep only a File or a Folder resource *)
+| CCreate (path : pval) (is_folder : bool)
+| CRemove (path : pval) (is_folder : bool).
 
 Definition s_ChangeSet : text := [67; 104; 97; 110; 103; 101; 83; 101; 116]%N.
 Definition s_ChangeContents : text := [67; 104; 97; 110; 103; 101; 67; 111; 110; 116; 101; 110; 116; 115]%N.
@@ -221,52 +267,116 @@ Fixpoint to_data (c : chg) : pval :=
   match c with
   | CSet d cs t => PTuple [PStr s_ChangeSet; PTuple [d; PList (map to_data cs); t]]
   | CContents p n o => PTuple [PStr s_ChangeContents; PTuple [p; n; o]]
-  | CMove o n f => PTuple [PStr s_MoveResource; PTuple [o; n; f]]
-  | CCreate p f => PTuple [PStr s_CreateResource; PTuple [p; f]]
-  | CRemove p f => PTuple [PStr s_RemoveResource; PTuple [p; f]]
+  | CMove o n f => PTuple [PStr s_MoveResource; PTuple [o; n; PBool f]]
+  | CCreate p f => PTuple [PStr s_CreateResource; PTuple [p; PBool f]]
+  | CRemove p f => PTuple [PStr s_RemoveResource; PTuple [p; PBool f]]
   end.
 
-(* DataToChange.__call__(data): getattr(self, "make" + data[0])(STAR data[1]); None = it raises.
-   data and data[1] may be tuples or lists (both index / unpack alike); the children of a ChangeSet are
-   iterated, so a tuple or a list.  Other sequence types (str, dict) are outside the model. *)
-Fixpoint to_change (v : pval) : option chg :=
-  let go := fix go (l : list pval) : option (list chg) :=
-    match l with
-    | [] => Some []
-    | x :: r => match to_change x, go r with Some c, Some cs => Some (c :: cs) | _, _ => None end
-    end in
+(* Python operations on a loaded value, with the exception each raises ------------------------------- *)
+Inductive outcome (A : Type) := Ok (a : A) | Err (e : exn).
+Arguments Ok {A} a.
+Arguments Err {A} e.
+Definition bind {A B} (x : outcome A) (f : A -> outcome B) : outcome B :=
+  match x with Ok a => f a | Err e => Err e end.
+
+(* k == i for a dict key k and the int i (Python: True == 1, False == 0; float keys are not modelled) *)
+Definition key_is_int (k : pval) (i : Z) : bool :=
+  match k with
+  | PInt z => Z.eqb z i
+  | PBool b => Z.eqb (if b then 1 else 0) i
+  | _ => false
+  end.
+
+(* v[i] for i = 0, 1 *)
+Definition py_index (v : pval) (i : nat) : outcome pval :=
   match v with
-  | PTuple (PStr name :: args :: _) | PList (PStr name :: args :: _) =>
-      match args with
-      | PTuple a | PList a =>
-          if text_eqb name s_ChangeSet then
-            match a with
-            | [d; PList cs] | [d; PTuple cs] => option_map (fun l => CSet d l PNone) (go cs)
-            | [d; PList cs; t] | [d; PTuple cs; t] => option_map (fun l => CSet d l t) (go cs)
-            | _ => None
-            end
-          else if text_eqb name s_ChangeContents then
-            match a with [p; n; o] => Some (CContents p n o) | _ => None end
-          else if text_eqb name s_MoveResource then
-            match a with                      (* makeMoveResource(old_path, new_path, is_folder=False) *)
-            | [o; n] => Some (CMove o n (PBool false))
-            | [o; n; f] => Some (CMove o n f)
-            | _ => None
-            end
-          else if text_eqb name s_CreateResource then
-            match a with [p; f] => Some (CCreate p f) | _ => None end
-          else if text_eqb name s_RemoveResource then
-            match a with [p; f] => Some (CRemove p f) | _ => None end
-          else None
-      | _ => None
-      end
-  | _ => None
+  | PTuple l | PList l => match nth_error l i with Some x => Ok x | None => Err ExIndex end
+  | PStr s => match nth_error s i with Some c => Ok (PStr [c]) | None => Err ExIndex end
+  | PDict kvs => match find (fun kv => key_is_int (fst kv) (Z.of_nat i)) kvs with
+                 | Some kv => Ok (snd kv)
+                 | None => Err ExKey
+                 end
+  | _ => Err ExType                            (* 'int' / 'NoneType' / ScopeInfo object is not subscriptable *)
   end.
 
-Fixpoint to_changes (l : list pval) : option (list chg) :=
+(* list(v): what `for x in v` and `f( *v)` go through *)
+Definition py_iter (v : pval) : outcome (list pval) :=
+  match v with
+  | PTuple l | PList l => Ok l
+  | PStr s => Ok (map (fun c => PStr [c]) s)
+  | PDict kvs => Ok (map fst kvs)
+  | _ => Err ExType
+  end.
+
+Fixpoint map_m {A B} (f : A -> outcome B) (l : list A) : outcome (list B) :=
   match l with
-  | [] => Some []
-  | x :: r => match to_change x, to_changes r with Some c, Some cs => Some (c :: cs) | _, _ => None end
+  | [] => Ok []
+  | x :: r => bind (f x) (fun y => bind (map_m f r) (fun ys => Ok (y :: ys)))
+  end.
+
+(* DataToChange.__call__(data):
+       method = getattr(self, "make" + data[0])
+       return method(STAR data[1])
+   makeChangeSet(description, changes, time=None) loops `for child in changes: self(child)`;
+   makeMoveResource(old_path, new_path, is_folder=False); the other makers take exactly their fields.
+   None of the makers inspects a field (Resource / Change constructors just store them).
+   Recursion on the children goes through py_iter, hence the fuel (ExFuel is excluded in the theorems:
+   S (pval_depth data) always suffices). *)
+(* bool(v) *)
+Definition truthy (v : pval) : bool :=
+  match v with
+  | PNone => false
+  | PBool b => b
+  | PInt z => negb (Z.eqb z 0)
+  | PStr s => negb (match s with [] => true | _ => false end)
+  | PFloat r => negb (text_eqb r [48; 46; 48]%N || text_eqb r [45; 48; 46; 48]%N)      (* "0.0", "-0.0" *)
+  | PTuple l | PList l => negb (match l with [] => true | _ => false end)
+  | PDict kvs => negb (match kvs with [] => true | _ => false end)
+  | PObj _ _ => true
+  end.
+
+Inductive maker := MkSet | MkContents | MkMove | MkCreate | MkRemove.
+Definition maker_of (name : text) : option maker :=
+  if text_eqb name s_ChangeSet then Some MkSet
+  else if text_eqb name s_ChangeContents then Some MkContents
+  else if text_eqb name s_MoveResource then Some MkMove
+  else if text_eqb name s_CreateResource then Some MkCreate
+  else if text_eqb name s_RemoveResource then Some MkRemove
+  else None.
+
+Fixpoint to_change (fuel : nat) (data : pval) : outcome chg :=
+  match fuel with
+  | O => Err ExFuel
+  | S n =>
+      bind (py_index data 0) (fun name =>
+      match name with
+      | PStr nm =>                                         (* "make" + data[0]: TypeError unless a str *)
+          match maker_of nm with
+          | None => Err ExAttribute
+          | Some mk =>
+              bind (py_index data 1) (fun a =>
+              bind (py_iter a) (fun args =>
+              match mk, args with
+              | MkSet, [d; cs] => bind (py_iter cs) (fun l => bind (map_m (to_change n) l) (fun l' => Ok (CSet d l' PNone)))
+              | MkSet, [d; cs; t] => bind (py_iter cs) (fun l => bind (map_m (to_change n) l) (fun l' => Ok (CSet d l' t)))
+              | MkContents, [p; nw; o] => Ok (CContents p nw o)
+              | MkMove, [o; nw] => Ok (CMove o nw false)
+              | MkMove, [o; nw; f] => Ok (CMove o nw (truthy f))       (* `if is_folder:` *)
+              | MkCreate, [p; f] => Ok (CCreate p (truthy f))
+              | MkRemove, [p; f] => Ok (CRemove p (truthy f))
+              | _, _ => Err ExType                         (* wrong number of arguments *)
+              end))
+          end
+      | _ => Err ExType
+      end)
+  end.
+
+Fixpoint pval_depth (v : pval) : nat :=
+  match v with
+  | PTuple l | PList l => S (list_max (map pval_depth l))
+  | PDict kvs => S (list_max (map (fun kv => Nat.max (pval_depth (fst kv)) (pval_depth (snd kv))) kvs))
+  | PObj _ s => S (pval_depth s)
+  | _ => 0
   end.
 
 (* History.write(): _remove_extra_items() keeps the last max_undos entries of the undo list;
@@ -277,47 +387,45 @@ Definition hist_data (undo redo : list chg) : pval :=
 Definition history_write_val (max_undos : nat) (undo redo : list chg) : pval :=
   hist_data (trim max_undos undo) redo.
 
-Inductive hres := HOk (undo redo : list chg) | HRaised (e : exn) | HFuel.
+Inductive hres := HOk (undo redo : list chg) | HRaised (e : exn).
 
 (* History._load_history():
      result = read_data("history")
      if result is not None:
          for data in result[0]: undo_list.append(to_change(data))
          for data in result[1]: redo_list.append(to_change(data)) *)
-Definition seq_items (v : pval) : option (list pval) :=
-  match v with PTuple l | PList l => Some l | _ => None end.
 Definition load_history (r : rd) : hres :=
   match r with
-  | OutOfFuel => HFuel
+  | OutOfFuel => HRaised ExFuel
   | Raised e => HRaised e
   | Loaded PNone => HOk [] []
   | Loaded v =>
-      match seq_items v with
-      | Some (u :: r :: _) =>
-          match seq_items u, seq_items r with
-          | Some ul, Some rl =>
-              match to_changes ul, to_changes rl with
-              | Some us, Some rs => HOk us rs
-              | _, _ => HRaised ExConsumer
-              end
-          | _, _ => HRaised ExConsumer
+      let conv x := bind (py_iter x) (map_m (to_change (S (pval_depth v)))) in
+      match bind (py_index v 0) conv with
+      | Err e => HRaised e
+      | Ok us =>
+          match bind (py_index v 1) conv with
+          | Err e => HRaised e
+          | Ok rs => HOk us rs
           end
-      | _ => HRaised ExConsumer
       end
   end.
 
 (* ------------------------------------------------------------------------------------------------ *)
 (* Object db: MemoryDB._load_files / write                                                           *)
-Inductive ores := OOk (files : pval) | ORaised (e : exn) | OFuel.
+Inductive ores := OOk (files : pval) | ORaised (e : exn).
 
 (* self._files = {}; result = read_data("objectdb"); if result is not None: self._files = result *)
 Definition load_files (r : rd) : ores :=
   match r with
-  | OutOfFuel => OFuel
+  | OutOfFuel => ORaised ExFuel
   | Raised e => ORaised e
   | Loaded PNone => OOk (PDict [])
-  | Loaded v => OOk v
+  | Loaded v => OOk v                          (* whatever was unpickled: nothing is checked *)
   end.
+
+(* AutoImport.__init__: self.names = read_data("globalnames"); if self.names is None: self.names = {} *)
+Definition load_names (r : rd) : ores := load_files r.
 
 (* what the users of MemoryDB need of _files: {path: {scope key: ScopeInfo}} where ScopeInfo carries
    the two dicts call_info and per_name (FileInfo(self._files[path]).scopes[key].call_info ...) *)
@@ -334,6 +442,14 @@ Definition fileinfo_ok (v : pval) : bool :=
 Definition files_ok (v : pval) : bool :=
   match v with PDict kvs => forallb (fun kv => is_str (fst kv) && fileinfo_ok (snd kv)) kvs | _ => false end.
 
+(* what AutoImport needs of names: {module name: [global names]} *)
+Definition names_ok (v : pval) : bool :=
+  match v with
+  | PDict kvs => forallb (fun kv => is_str (fst kv)
+                                    && match snd kv with PList l => forallb is_str l | _ => false end) kvs
+  | _ => false
+  end.
+
 (* ------------------------------------------------------------------------------------------------ *)
 (* Laws relating pickle bytes to values (validated against the real pickle module by the harness)     *)
 Definition strict_prefix (a b : bytes) : Prop := exists t, t <> [] /\ b = a ++ t.
@@ -348,3 +464,14 @@ Definition good_write (unpickle : bytes -> load) (w : write) : Prop :=
 (* the values written to a data file by a save *)
 Definition written (f : dfile) (ws : list write) (v : pval) : Prop :=
   exists w, In w ws /\ w_file w = f /\ w_val w = v.
+
+(* Several sessions: each save starts from the disk the previous one (interrupted anywhere, or complete) left;
+   between saves rope does not touch the data files. [evolves u d0 W d]: d is reachable from d0 through saves
+   whose writes, concatenated, are W. *)
+Inductive evolves (unpickle : bytes -> load) : disk -> list write -> disk -> Prop :=
+| ev_refl d d' : (forall x, d' x = d x) -> evolves unpickle d [] d'
+| ev_save d0 W d1 ws d2 :
+    evolves unpickle d0 W d1 ->
+    Forall (good_write unpickle) ws ->
+    crash_state (save_steps ws) d1 d2 ->
+    evolves unpickle d0 (W ++ ws) d2.
